@@ -23,7 +23,7 @@ for sid in sorted(os.listdir(os.path.join(ROOT, 'seeded'))):
     rows.append('| %s | %s | %s | %s | `%s` |' % (
         sid, what, ' '.join(sorted(caught)) or '**none**',
         ' '.join(sorted(tried - caught)) or '-', mech))
-head = ('320 independently written breakages (round 1: two per property, ids '
+head = ('360 independently written breakages (round 1: two per property, ids '
         '`Cxx-a/b`; round 2: three per property, ids `Cxx-r2a/b/c`; round 3, '
         'asked for changes that need two coinciding conditions: two per '
         'property, ids `Cxx-r3a/b`; round 4, asked for two cooperating edits '
@@ -36,7 +36,10 @@ head = ('320 independently written breakages (round 1: two per property, ids '
         'told about all of that and asked for purely value-dependent '
         'breakages in a plain interpreter (numeric coincidences, option '
         'combinations, state carried between sections, absent / default / '
-        'falsy): two per property, ids `Cxx-r7a/b`), all '
+        'falsy): two per property, ids `Cxx-r7a/b`; round 8, interactions of '
+        'three or more features, sibling order / count, coincidences after '
+        'transformation, streaming vs object-model asymmetries, late error '
+        'paths: two per property, ids `Cxx-r8a/b`), all '
         'confirmed (apply, 176 repository tests pass, demonstration fails '
         'with / passes without). "caught by" lists every quick check that '
         'reported a VIOLATION on a scratch copy with the patch applied (the '
@@ -44,7 +47,7 @@ head = ('320 independently written breakages (round 1: two per property, ids '
         'run); "also run, silent" the others that were tried. The last '
         'column is the first mechanism the tagged check printed.\n\n'
         'First-pass result before any strengthening: round 1 36/40 caught by '
-        'the tagged check, round 2 44/60, round 3 27/40, round 4 30/40, round 5 21/60, round 6 7/40, round 7 29/40. Each miss was '
+        'the tagged check, round 2 44/60, round 3 27/40, round 4 30/40, round 5 21/60, round 6 7/40, round 7 29/40, round 8 19/40. Each miss was '
         'analysed and the '
         'check strengthened (never the seeded change adapted): C02 codec '
         'spelling sweep; C07 exact-byte-count and mid-line-cut mechanisms; '
@@ -112,8 +115,20 @@ head = ('320 independently written breakages (round 1: two per property, ids '
         '(C09); blank lines with the other terminator and containers '
         'carrying options that are meaningful elsewhere (C10); streaming '
         'records edited by the consumer (C18); marker words inside diff '
-        'lines (C20). After that '
-        '310 of 320 are caught by their tagged check; three of round 6 are '
+        'lines (C20). (round 8) indent / line_endings as producer options on '
+        'sections where they mean nothing (C03, C12); statistics independent '
+        'of container encodings and bare diffs under wide scopes (C04); '
+        'public lists edited in place (C05, C19); CRLF diffs with bare-LF '
+        'marker lines in the cut sweep (C07); broken JSON whose line breaks '
+        'disagree with line_endings, option names that are attribute names '
+        '(C08, exposing F12); valid choices with a suffix (C09); headers '
+        'behind every amount of whitespace (C11); marker / header look-alikes '
+        '(C13, C14, exposing F11); one line spanning whole blocks and round '
+        'line counts (C16); identical large metadata (C18); CPU-time budget '
+        'for the lexer (C20). After that '
+        '344 of 360 are caught by their tagged check; six of round 8 are '
+        'recorded as not claimed or obsolete (C01-r8b, C10-r8a, C10-r8b, '
+        'C12-r8b, C14-r8b, C17-r8a - see their meta.json); earlier: three of round 6 are '
         'recorded as not claimed (C06-r6b is the same change as the allowed '
         'patch P8-a; C10-r6a needs -W error on legal input; C10-r6b needs a '
         'stream without tell()), and the other seven '
